@@ -73,6 +73,8 @@ def _gen_file(rng, wellformed):
             if norig and rng.chance(2, 3):
                 recs = []
 
+                deep = rng.chance(1, 12)
+
                 def inl(lo, hi, depth):
                     ranges, a = [], lo
                     while a < hi and len(ranges) < 5:
@@ -96,6 +98,8 @@ def _gen_file(rng, wellformed):
                         lookups.extend([a0 - 1, a0, a1 - 1, a1])
                         if depth < 2 and a1 - a0 > 2 and rng.chance(1, 2):
                             inl(a0 + rng.below(2), a1 - rng.below(2), depth + 1)
+                        elif deep and 2 <= depth < 13 and a1 - a0 > 2:
+                            inl(a0, a1, depth + 1)              # a long inline chain: nest levels of two decimal digits
                 inl(addr + rng.below(max(1, size // 3)), addr + size, 0)
                 if rng.chance(2, 3):
                     rng_shuffle(rng, recs)
